@@ -33,7 +33,7 @@ RULE = ('cases: (a) seeded histories of 10-40 ops over 2-3 fresh TagLibrary obje
         'duplicate rejected and >=3 accepted tags; distinct by the name sequence.')
 ASSUMPTIONS = ['which hostile names are accepted is not prescribed; ordinary identifiers (upper/camel-case words) must be accepted',
                'names are str (the quantifier ranges over strings)']
-FLOORS = {'quick': {'module_attribute_names_tried_on_the_global_library': 208, 'cases_in_mode_warnings': 129, 'libraries_replaced_by_a_deep_copy': 630, 'unusable_names_tried': 752, 'module_builtin_names_used_by_the_module_tried': 20, 'short_lived_libraries': 7381, 'module_names_as_str_subclass': 33, 'names_as_str_subclass': 1489, 'local_decisions_compared': 251, 'adds_accepted': 5000, 'adds_rejected_duplicate': 1500, 'adds_rejected_none': 300, 'hostile_tried': 4000,
+FLOORS = {'quick': {'operations_after_which_nobody_looked': 10796, 'module_attribute_names_tried_on_the_global_library': 208, 'cases_in_mode_warnings': 129, 'libraries_replaced_by_a_deep_copy': 630, 'unusable_names_tried': 752, 'module_builtin_names_used_by_the_module_tried': 20, 'short_lived_libraries': 7381, 'module_names_as_str_subclass': 33, 'names_as_str_subclass': 1489, 'local_decisions_compared': 251, 'adds_accepted': 5000, 'adds_rejected_duplicate': 1500, 'adds_rejected_none': 300, 'hostile_tried': 4000,
                     'hostile_rejected': 500, 'hostile_accepted': 500, 'id_probes': 10000, 'unknown_name_probes': 5000,
                     'full_checks': 20000, 'itemize_result_mutated': 5000, 'big_libraries': 6, 'big_tags': 800, 'module_histories': 24, 'module_hostile_tried': 210, 'contract:TagLibrary.bijection': 20000,
                     'reach:Tags.TagLibrary.add_tag': 8000},
